@@ -165,7 +165,7 @@ var c17Alphabet = []string{
 	"a", "b", "z", "A", "B", "Z", "s", "S", "k", "K", "i", "I", "0", "9", "-", "_", "+", ".", ".", "@", "@",
 	"\"", "\\", " ", "(", ")", "<", ">", "[", "]", ":", ";", ",", "!", "#",
 	"́", "̈", "̇", "é", "É", "ü", "Ü", "ß", "ẞ", "İ", "ı", "ς", "σ", "Σ", "ſ", "K",
-	"Ａ", "ａ", "＠", "．", "。", "中", "\u007f", "\u0080", "\u0081", "ÿ",
+	"µ", "μ", "Μ", "ǅ", "ǆ", "Ǆ", "Ａ", "ａ", "＠", "．", "。", "中", "\u007f", "\u0080", "\u0081", "ÿ",
 	"xn--", "XN--", "xn--mnchen-3ya", "XN--MNCHEN-3YA", "xn--e1afmkfd", "xn--a", "xn---", "postmaster", "POSTMASTER", "poſtmaster",
 }
 
@@ -205,6 +205,24 @@ func caseVariant(r *vh.Rng, s string) string {
 			}
 		}
 		b.WriteRune(ch)
+	}
+	return b.String()
+}
+
+// foldVariant replaces runes by other members of their simple case-folding orbit
+// (what strings.EqualFold identifies): 's'/'S'/'ſ', 'σ'/'ς'/'Σ', 'µ'/'μ', 'k'/'K'/Kelvin ...
+func foldVariant(r *vh.Rng, s string) string {
+	var b strings.Builder
+	for _, ch := range s {
+		if r.Chance(50) {
+			f := unicode.SimpleFold(ch)
+			if r.Bool() {
+				f = unicode.SimpleFold(f)
+			}
+			b.WriteRune(f)
+		} else {
+			b.WriteRune(ch)
+		}
 	}
 	return b.String()
 }
@@ -458,6 +476,12 @@ func TestVerifC17(t *testing.T) {
 		}
 		if r.Chance(30) {
 			c17Op(out, r.Pick("equal", "dnsequal"), s, t)
+		}
+		if r.Chance(50) {
+			fv := foldVariant(r, s)
+			c17Op(out, r.Pick("equal", "dnsequal"), s, fv)
+			c17Strings(out, s, fv)
+			c17Strings(out, fv, s)
 		}
 		c17Strings(out, s, t)
 		// crash-freedom over arbitrary bytes
